@@ -26,7 +26,8 @@ RULE = ('programs built from the cache-writing paths (WRITE_CACHE, POP0/POP1, '
         'initial caches with sigfields, timestamp and str keys shadowing '
         'script registers. distinct = by (script, cache keys, flags); '
         'non-trivial = >= 1 logged cache write whose key spells a protected '
-        'name')
+        'name'
+        ' [plus half of the runs under configured limits (items 1-16, sizes 8-4096, call limit 1-128) in the recorded run and both public entry points, timestamps of odd types]')
 ASSUMPTIONS = [
     'no plugin or contract installed other than a pure recording contract',
     "the interpreter's own control key 'returned' (value True) is the only "
